@@ -9,6 +9,8 @@
     validates every log append (once per hosting node, nowhere else), every delivery on every
     node, the acknowledgement, and at quiescence that every reachable destination was served.
 """
+import json
+
 import vlib
 from checks import brokerlib, inboundlib
 
@@ -40,6 +42,8 @@ def check(run):
         raise vlib.Inconclusive("broker driver died: %s" % crashes[0][2][-2000:])
     v = vlib.Verdict(run)
     nev, nscn, validated, rejected, tstates = brokerlib.validate(run, "C14", scns, tpath, v)
+    nlag, lagval, lagrej, lagstates = check_lag(run, v)
+    validated += lagval
     rc = v.finish()
     faulty = sum(1 for h in hs if any(o["op"] == "toggle" for o in h))
     vlib.write_evidence(run, {
@@ -51,11 +55,70 @@ def check(run):
                 "after every topic has been published once, and one is removed before a last publish; every fourth scenario ends with a publish whose payload is empty; four in seven scenarios name the topics t/<m>/$s, t/$<m>/v, t/<m>/$s/z and subscribe through + / # (legal, unusual names); plus every QoS 1 script of depth 4 with >= 2 publishes and >= 2 failure toggles on two nodes (fail, recover, unrelated publish); non-trivial = contains an injected failure",
         "events_validated": nev, "trace_spec_states": tstates, "rejections": len(rejected),
         "samples": [hs[0], hs[len(hs) // 2], {"scenario": scns[-1]}],
-    }, ["the publishing node's view of subscriptions is up to date (gossip is delivered between steps)",
+    }, ["in the TLC-generated distribution scripts the publishing node's view of subscriptions is up to date (gossip is delivered between steps); "
+        "the lagging-gossip family (ViewTrace.tla) covers a view that is behind, with broadcasts delivered in order per origin",
         "topic m5 is hosted on nodes 2 and 3 only (two remote destinations for a publisher on node 1), m4 nowhere"],
         violations=v.n_new)
     run.log("validated %d scripts (%d events), %d rejected (%d known)" % (validated, nev, len(rejected), v.n_known))
     return rc
+
+
+def lag_scenarios(thorough):
+    """round 8: what the publishing node KNOWS decides where a publish goes.  The harness holds every broadcast back and delivers it by
+    hand: a subscription made on node 2 (and 3) is unknown to node 1 until its broadcast arrives, a removed one is still believed in
+    until the removal arrives.  Publishes from node 1 at every stage; ViewTrace.tla follows each node's knowledge."""
+    out = []
+    stages = ["sub", "deliver", "sub3", "unsub", "deliver", "resub", "deliver"]
+    for shape in (0, 1, 2):
+        T = [["t", "x"], ["t", "$x", "v"], ["t", "x"]][shape]
+        F = [["t", "x"], ["t", "+", "v"], ["t", "x", "#"]][shape]
+        for pubq in (1, 0):
+            ops = [{"op": "gossip", "mode": "hold"},
+                   {"op": "connect", "c": 1, "n": 1, "client": "pub", "ka": 600},
+                   {"op": "connect", "c": 12, "n": 2, "client": "sub2", "ka": 600},
+                   {"op": "connect", "c": 13, "n": 3, "client": "sub3", "ka": 600},
+                   {"op": "collect"}]
+            k = 0
+
+            def pub():
+                nonlocal k
+                k += 1
+                return [{"op": "pub", "c": 1, "t": T, "p": "lag%d-%d-%d" % (shape, pubq, k), "q": pubq, "id": k if pubq else 0}]
+            ops += pub()
+            for st in stages:
+                if st == "sub":
+                    ops += [{"op": "sub", "c": 12, "id": 1, "fs": [{"f": F, "q": 1}]}, {"op": "collect"}]
+                elif st == "sub3":
+                    ops += [{"op": "sub", "c": 13, "id": 1, "fs": [{"f": F, "q": 0}]}, {"op": "collect"}]
+                elif st == "unsub":
+                    ops += [{"op": "unsub", "c": 12, "id": 2, "fs": [{"f": F, "q": 0}]}, {"op": "collect"}]
+                elif st == "resub":
+                    ops += [{"op": "sub", "c": 12, "id": 3, "fs": [{"f": F, "q": 1}]}, {"op": "collect"}]
+                else:
+                    ops += [{"op": "deliverfrom", "from": 2, "to": 1}, {"op": "deliverfrom", "from": 3, "to": 1},
+                            {"op": "deliverfrom", "from": 2, "to": 3}, {"op": "deliverfrom", "from": 3, "to": 2}]
+                ops += pub()
+            ops.append({"op": "quiesce"})
+            out.append({"nodes": [1, 2, 3], "lenient": True, "ops": ops})
+    return out
+
+
+def check_lag(run, v):
+    scns = lag_scenarios(run.tier == "thorough")
+    tpath, crashes = brokerlib.execute(run, scns, "c14lag", shards=6)
+    if crashes:
+        raise vlib.Inconclusive("broker driver died: %s" % crashes[0][2][-2000:])
+    validated, rejected, tstates = vlib.validate_scenarios(run, "ViewTrace", "ViewTrace.cfg", tpath, timeout=1200, max_rejections=3)
+    for rj in rejected:
+        scn, line = rj["scenario"], rj["line"]
+        e = scn[line - 1]
+        idx = scn[0]["scn"] - 1
+        sig = "lag:%s%s-unexplained" % (e.get("op"), (":" + e["kind"]) if e.get("kind") else "")
+        v.add(sig, "lagging gossip: event %d %s is not a step of ViewTrace.tla (destinations are the nodes hosting a matching subscription known to the "
+                   "publishing node); preceding events: %s" % (line, json.dumps(e), json.dumps(brokerlib.context(scn, line - 1))),
+              {"kind": "broker", "tracespec": "ViewTrace", "scenario": scns[idx] if 0 <= idx < len(scns) else None, "rejected": e})
+    run.log("lagging gossip: %d scripts, %d validated, %d rejected" % (len(scns), validated, len(rejected)))
+    return len(scns), validated, len(rejected), tstates
 
 
 def replay(run, path):
